@@ -243,6 +243,32 @@ func genChans(r *lib.Rng, nchan, nsamp int, projChance int, sfByRow bool) []Chan
 		}
 		chans[i] = ch
 	}
+	// Readout groups of different sizes (Abaco groups with different Nchan, Lancero devices with different
+	// rows/cols): every channel carries its OWN array size. Half of the multi-channel configurations get
+	// 2-3 groups whose (rows, cols) differ from the first group's.
+	if nchan >= 2 && r.Chance(1, 2) {
+		start := r.Range(1, nchan-1)
+		for start < nchan {
+			size := r.Range(1, nchan-start)
+			grows, gcols := genGeometry(r, size)
+			if grows == rows && gcols == cols {
+				grows += r.Range(1, 4)
+			}
+			if r.Bool() && gcols == cols {
+				gcols += r.Range(1, 3)
+			}
+			first := r.Intn(grows*gcols - size + 1)
+			for j := 0; j < size; j++ {
+				k := first + j
+				ch := &chans[start+j]
+				ch.Rows, ch.Cols, ch.Row, ch.Col = grows, gcols, k/gcols, k%gcols
+				if sfByRow {
+					ch.SfOff = ch.Row
+				}
+			}
+			start += size
+		}
+	}
 	return chans
 }
 
@@ -520,7 +546,17 @@ func corpus() []Case {
 			{Op: "stop"}, {Op: "start"}, {Op: "start", TOFF: true}, {Op: "start", T22: true}, {Op: "start", T3: true},
 			{Op: "pub", Ch: 0, Recs: []Rec{}}, {Op: "stop"}, {Op: "start", T22: true, T3: true},
 			{Op: "pub", Ch: 1, Recs: []Rec{simpleRec(1, 1, 2, ramp(7, 1))}}, {Op: "stop"}}},
-		// 5-7: the writers directly
+		// two readout groups of different sizes: rcCode(0,0,4,2) and rcCode(5,1,8,2); every header must carry the channel's own array size
+		{Kind: "bench", Source: "Abaco", SfDiv: 64, NPre: 1, NSamp: 4, RateNum: 1000000, RateDen: 1, Chans: []Chan{
+			{Name: "chan1", Number: 1, Rows: 4, Cols: 2, Row: 0, Col: 0, NBases: 1, Proj: fbits(1, 0, 0, 0), Basis: fbits(1, 0, 0, 0), Desc: "m"},
+			{Name: "chan2", Number: 2, Rows: 8, Cols: 2, Row: 5, Col: 1, NBases: 1, Proj: fbits(0, 1, 0, 0), Basis: fbits(0, 1, 0, 0), Desc: "m"},
+			{Name: "chan3", Number: 3, Rows: 3, Cols: 5, Row: 2, Col: 4}}, Ops: []Op{
+			{Op: "start", T22: true, T3: true, TOFF: true},
+			{Op: "pub", Ch: 0, Recs: []Rec{simpleRec(1, 1000, 1, ramp(4, 1), 1)}},
+			{Op: "pub", Ch: 1, Recs: []Rec{simpleRec(2, 2000, 1, ramp(4, 2), 2), simpleRec(3, 3000, 1, ramp(4, 3), 3)}},
+			{Op: "pub", Ch: 2, Recs: []Rec{simpleRec(4, 4000, 1, ramp(4, 4))}},
+			{Op: "stop"}}},
+		// the writers directly
 		{Kind: "w22", Source: "Lancero", SfDiv: 32, NPre: 2, NSamp: 6, Nchan: 64, Index: 12, Spp: 1, TbBits: math.Float64bits(5e-8),
 			Chans: []Chan{{Name: "chan12", Number: 12, Rows: 32, Cols: 2, Row: 12, Col: 1, SfOff: 12, PX: 3, PY: 4, PName: "pixel"}},
 			Ops: []Op{{Op: "rec", Recs: []Rec{simpleRec(100, 1700000000000000, 2, ramp(6, 65530)), simpleRec(101, -5, 2, ramp(5, 1)),
